@@ -384,14 +384,27 @@ func selectNodesForGraph(nodes Nodes, dropNegative bool) *Graph {
 			continue
 		}
 		if n.Cum == 0 && n.Flat == 0 {
+			n.detach()
 			continue
 		}
 		if dropNegative && isNegative(n) {
+			n.detach()
 			continue
 		}
 		gNodes = append(gNodes, n)
 	}
 	return &Graph{gNodes}
+}
+
+// detach removes the edges between n and its neighbours, so that no
+// edge of the graph refers to a node that is not part of it.
+func (n *Node) detach() {
+	for src := range n.In {
+		delete(src.Out, n)
+	}
+	for dest := range n.Out {
+		delete(dest.In, n)
+	}
 }
 
 type nodePair struct {
